@@ -307,12 +307,20 @@ class StmtMixin:
                         self.branch_stmt(cur, sink)
                         self.ind = base
                         return
-                    s, sty = self.ex(cur.cond.e)
+                    alias = self.get_mut_alias(cur.cond)
+                    if alias is not None:
+                        s, sty = alias[0], alias[1]
+                    else:
+                        s, sty = self.ex(cur.cond.e)
                     head('match %s with' % s)
                     self.ind = kw
                     self.push()
                     try:
                         p = self.pat(cur.cond.pat, sty)
+                        if alias is not None:
+                            v = self.lookup(alias[2])
+                            v.mutable = True
+                            v.alias_set = alias[3]
                         self.emit('| %s =>' % p)
                         self.ind = body
                         self.block_stmts(cur.then, sink)
@@ -402,7 +410,7 @@ class StmtMixin:
         while p.kind == 'PRef':
             p = p.inner
         if p.kind == 'PIdent' and s.els is None:
-            name = lean_ident(p.name)
+            name = self.fresh_if_shadowing_mut(p.name)
             tyv = dty
             self.into(s.init, ('let', name, p.mut, tyv), want=(dty if s.ty is not None else None))
             self.declare(p.name, Var(name, tyv, mutable=p.mut))
@@ -433,6 +441,39 @@ class StmtMixin:
             if not self.pure:
                 self.emit('let mut %s := %s' % (nm, nm))
 
+    def get_mut_alias(self, cond):
+        """`if let Some(r) = map.get_mut(&k) { *r = … }`: r aliases the entry; a write to `*r` is `map.insert k …`.
+        Returns (scrutinee term, its type, rust name of r, setter) or None."""
+        sc = self.strip(cond.e)
+        if sc.kind != 'MethodCall' or sc.name != 'get_mut' or len(sc.args) != 1:
+            return None
+        pl = self.try_place(sc.recv)
+        if pl is None: return None
+        mt = res(pl.ty)
+        if isinstance(mt, TVar) or mt[0] != 'map':
+            return None
+        p = cond.pat
+        while p.kind == 'PRef': p = p.inner
+        if not (p.kind == 'PTupleStruct' and p.segs[-1] == 'Some' and len(p.elems) == 1 and p.elems[0].kind == 'PIdent'):
+            self.fail('`get_mut` is only supported as `if let Some(x) = map.get_mut(&k)`', cond.line)
+        k, kt = self.ex(sc.args[0], want=mt[1])
+        unify(kt, mt[1])
+        key = par(k)
+
+        def setter(t):
+            pl._cache = None
+            pl.set('%s.insert %s %s' % (par(pl.get()), key, par(t)))
+        return '%s[%s]?' % (par(pl.get()), k), ('opt', mt[2]), p.elems[0].name, setter
+
+    def fresh_if_shadowing_mut(self, rust_name):
+        """Lean cannot shadow a `let mut` variable: a Rust re-declaration of such a name gets a numbered Lean name"""
+        name = lean_ident(rust_name)
+        old = self.lookup(rust_name)
+        if old is not None and old.mutable and not self.pure:
+            self.nshadow = getattr(self, 'nshadow', 0) + 1
+            return '%s_%d' % (name, self.nshadow)
+        return name
+
     # ------------------------------------------------------------------------------------------ patterns
     def pat(self, p, ty, wild=False, collect_mut=None):
         k = p.kind
@@ -443,7 +484,7 @@ class StmtMixin:
         if k == 'PIdent':
             if wild:
                 return '_'
-            name = lean_ident(p.name)
+            name = self.fresh_if_shadowing_mut(p.name)
             self.declare(p.name, Var(name, ty, mutable=p.mut))
             if p.mut:
                 if collect_mut is None:
@@ -505,7 +546,15 @@ class StmtMixin:
             parts = [self.pat(given[f], ft, wild, collect_mut) if f in given else '_' for f, ft in fields]
             return '(' + ', '.join(parts) + ')' if len(parts) > 1 else parts[0]
         if k == 'POr':
-            self.fail('or-patterns are not supported', p.line)
+            alts = []
+            for a in p.alts:
+                self.push()
+                alts.append(self.pat(a, ty, wild, collect_mut))
+                bound = bool(self.scopes[-1])
+                self.pop()
+                if bound:
+                    self.fail('or-patterns that bind variables are not supported', p.line)
+            return ' | '.join(alts)
         self.fail('pattern kind %s' % k, p.line)
 
     # ------------------------------------------------------------------------------------------ control
@@ -701,6 +750,34 @@ class StmtMixin:
             chain.append(cur)
             cur = self.strip(cur.recv)
         chain.reverse()
+        if e.iter.kind == 'Unary' and e.iter.op == '&mut' and it.kind == 'Index' and it.idx.kind == 'Range':
+            # `for x in &mut v[lo..hi] { *x = … }`: write-back loop over a sub-slice (the slice itself panics when out of range)
+            rg = it.idx
+            pl = self.try_place(it.obj)
+            if pl is None: self.fail('`&mut v[a..b]` of a non-place', e.line)
+            pt = res(pl.ty)
+            if isinstance(pt, TVar) or pt[0] != 'vec': self.fail('`&mut v[a..b]` on %r' % (pt,), e.line)
+            if rg.lo is None or rg.hi is None or rg.incl: self.fail('only `&mut v[a..b]` sub-slices are supported', e.line)
+            lo = par(self.ex(rg.lo)[0]); hi = par(self.ex(rg.hi)[0])
+            if e.pat.kind != 'PIdent': self.fail('write-back loop needs an identifier pattern', e.line)
+            self.emit('if decide (%s > %s) || decide (%s > %s.size) then Outcome.panic "slice index out of range"' % (lo, hi, hi, par(pl.get())))
+            i = self.tmp('i')
+            self.emit('for %s in [%s:%s] do' % (i, lo, hi))
+            self.ind = base + 2
+            self.push()
+            self.loops.append({'nobreak': True})
+            try:
+                name = lean_ident(e.pat.name)
+                self.emit('let mut %s ← Rust.idx %s %s' % (name, par(pl.get()), i))
+                self.declare(e.pat.name, Var(name, pt[1], mutable=True))
+                self.block_stmts(e.body, ('discard',))
+                pl._cache = None
+                pl.set(self.m('Rust.setIdx %s %s %s' % (par(pl.get()), i, name)))
+            finally:
+                self.loops.pop()
+                self.pop()
+                self.ind = base
+            return
         if any(c.name == 'iter_mut' for c in chain) or (e.iter.kind == 'Unary' and e.iter.op == '&mut'):
             pl = self.try_place(cur)
             if pl is None: self.fail('iter_mut() on a non-place', e.line)
